@@ -131,6 +131,23 @@ def body(ctx, case):
     hyps_again = [(h.transcript, float(h.vis_sc), float(h.lm_sc)) for h in again[0]]
     ctx.check(sorted(hyps_again) == sorted(hyps), "result_depends_on_decoder_history",
               lambda: "first %r, after another line %r; " % (sorted(hyps), sorted(hyps_again)) + desc())
+    # the same decoder used for a later line that starts from a *different* LM state, and through the plain call
+    # (no state returned, no end-of-line modelling): every reported LM score is still the LM's own score
+    if lm_type == "hash":
+        start2 = (tuple(start) if start is not None else ()) + (0,)
+        with np.errstate(all="ignore"):
+            later = ctx.must("decoder_raises", dec, M.copy(), init_h=lm.state_after(start2))
+        for h in later:
+            want2, _ = lm.seq_score(start2, to_tuple(h.transcript), bonus, False)
+            ctx.check(abs(float(h.lm_sc) - want2) <= 1e-9 * (1 + abs(want2)), "lm_score_not_lm_own_score",
+                      lambda: "later line from start state %r: transcript %r lm_sc=%r, LM gives %r; " % (start2, h.transcript, float(h.lm_sc), want2) + desc())
+    if not eos:
+        with np.errstate(all="ignore"):
+            plain_call = ctx.must("decoder_raises", dec, M.copy(), init_h=copy.deepcopy(init_h))
+        got_plain = sorted((h.transcript, round(float(h.vis_sc), 9), round(float(h.lm_sc), 7)) for h in plain_call)
+        want_plain = sorted((t, round(v, 9), round(l, 7)) for t, v, l in hyps)
+        ctx.check(got_plain == want_plain, "plain_call_differs_from_call_with_returned_state",
+                  lambda: "plain %r with return_h %r; " % (got_plain, want_plain) + desc())
     post = boh.posteriors()
     ctx.check(abs(ctc.lse([float(x) for x in post])) < 1e-9, "posteriors_do_not_sum_to_one", desc)
     # 5. scale 0 reproduces LM-free decoding
